@@ -217,5 +217,23 @@ fail_fs:
 	fstree_cleanup(&sqfs->fs);
 fail_file:
 	sqfs_drop(sqfs->outfile);
+
+	/*
+	 * The output file was created (or truncated) by us above, the tools
+	 * bail out without calling sqfs_writer_cleanup if we fail, so don't
+	 * leave a useless stub of an image behind.
+	 */
+#if defined(_WIN32) || defined(__WINDOWS__)
+	{
+		WCHAR *path = path_to_windows(sqfs->filename);
+
+		if (path != NULL)
+			DeleteFileW(path);
+
+		free(path);
+	}
+#else
+	unlink(sqfs->filename);
+#endif
 	return -1;
 }
